@@ -151,6 +151,13 @@ def harnesses(tier, seed):
                           cfg=core.Cfg(fork_queries=True, qtimeout_ms=60000, logic='QF_FP'), functions=['util.pbox'],
                           bounds="IEEE binary64, all finite/infinite non-NaN inputs with l <= u, per coordinate (pbox is elementwise)",
                           assumptions=["no NaN among w, l, u"], expect=['pbox-output-exactly-in-box'], nproc=1))
+    # the stop rule bounds the distance to a set by the distance to the projector's OUTPUT: the ball projector shipped with dfols
+    # must itself land in its ball (and the box projector in its box, above) - C13's pball harness
+    from . import c13
+    for h in c13.harnesses(tier, seed):
+        if h.name.startswith('pball['):
+            h.home = 'C15'
+            hs.append(h)
     return hs
 
 
